@@ -32,7 +32,7 @@ PTRepair == << <<"Honest", "Honest", 0, 4>>, <<"Silent", "Silent", 0, 4>>, <<"St
                <<"CloseEarly", "CloseEarly", 0, 4>>, <<"BadSig", "BadSig", 0, 4>>,
                <<"WrongRound", "WrongRound", 0, 4>>, <<"ForeignId", "ForeignId", 0, 4>>,
                <<"CloseEarly", "Honest", 0, 4>> >>
-\* the same without the behaviours for which the code is known to deviate (see known findings)
+\* the same without WrongRound (which the code mishandled before fix F32)
 PTRepairNoWrong == << <<"Honest", "Honest", 0, 4>>, <<"Silent", "Silent", 0, 4>>, <<"Stall", "Stall", 0, 4>>,
                <<"CloseEarly", "CloseEarly", 0, 4>>, <<"BadSig", "BadSig", 0, 4>>,
                <<"ForeignId", "ForeignId", 0, 4>>, <<"CloseEarly", "Honest", 0, 4>> >>
@@ -50,7 +50,7 @@ PTLiveNoStall == << <<"Honest", "Honest", 0, 4>>, <<"Silent", "Silent", 0, 4>>,
              <<"CloseEarly", "CloseEarly", 1, 4>>, <<"BadSig", "BadSig", 1, 4>>,
              <<"ForeignId", "ForeignId", 1, 4>>, <<"CloseEarly", "Honest", 1, 4>>, <<"Silent", "Honest", 0, 4>> >>
 PTRepairLive == << <<"Honest", "Honest", 0, 4>>, <<"Silent", "Silent", 0, 4>>,
-               <<"CloseEarly", "CloseEarly", 0, 4>>, <<"BadSig", "BadSig", 0, 4>>,
+               <<"CloseEarly", "CloseEarly", 0, 4>>, <<"BadSig", "BadSig", 0, 4>>, <<"WrongRound", "WrongRound", 0, 4>>,
                <<"ForeignId", "ForeignId", 0, 4>>, <<"CloseEarly", "Honest", 0, 4>> >>
 
 NoCorruption == {{}}
